@@ -650,6 +650,121 @@ func checkC20(e *Engine, r *Report) {
 		r.Check(len(cyc) == 0, "lock order › rpc + indexer mutexes", "", "acquisition edges: ["+strings.Join(es, ", ")+"], acyclic", "locks are acquired in conflicting orders (deadlock under the right interleaving): "+strings.Join(cyc, "; "))
 	})
 
+	r.Rule("R8", "TYPESTATE", "a filter's subscription is uninstalled at most once: Unsubscribe on a subscription taken out of the shared registry PublicFilterAPI.filters happens only on paths on which that entry is deleted from the registry within the same hold of filtersMu as the look-up (eventLoop closes the subscription's error channel unconditionally per uninstall request: a second request would close a closed channel and kill the process)", 2, func() {
+		n := 0
+		for _, f := range funcs {
+			if IsGenerated(e.File(f.Pos())) || pkgPathOf(f) != pkgFilters {
+				continue
+			}
+			held := ls(f)
+			for _, u := range callsTo(f, false, CallSpec{pkgFilters, "Subscription", "Unsubscribe"}) {
+				recv := u.Common().Args[0]
+				fromRegistry := false
+				for _, cf := range containerFields(recv) {
+					if cf[0] == "PublicFilterAPI" && cf[1] == "filters" {
+						fromRegistry = true
+					}
+				}
+				if !fromRegistry {
+					continue
+				}
+				n++
+				// deletes on the registry
+				var dels []ssa.CallInstruction
+				for _, c := range callsIn(f, false, func(c ssa.CallInstruction) bool {
+					b, ok := c.Common().Value.(*ssa.Builtin)
+					if !ok || b.Name() != "delete" {
+						return false
+					}
+					for _, cf := range containerFields(c.Common().Args[0]) {
+						if cf[0] == "PublicFilterAPI" && cf[1] == "filters" {
+							return true
+						}
+					}
+					return false
+				}) {
+					dels = append(dels, c)
+				}
+				ok := false
+				for _, d := range dels {
+					if held[d.(ssa.Instruction)]["filtersMu"] != 'W' {
+						continue
+					}
+					// P1: delete inside the critical section, before the unsubscribe on every path
+					if passesThrough(f, u.(ssa.Instruction), d.(ssa.Instruction)) {
+						ok = true
+					}
+					// P1': correlated guards — `if found { delete }; unlock; if !found { return }; unsubscribe`: the delete sits on the
+					// true edge of a test of the same value that guards the unsubscribe
+					for _, i1 := range ifs(f) {
+						c1, neg1 := i1.Cond, false
+						if un, isU := c1.(*ssa.UnOp); isU && un.Op == token.NOT {
+							c1, neg1 = un.X, true
+						}
+						t1 := i1.Block().Succs[0]
+						if neg1 {
+							t1 = i1.Block().Succs[1]
+						}
+						if !(t1 == d.Block() || t1.Dominates(d.Block())) || !i1.Block().Dominates(u.Block()) {
+							continue
+						}
+						// the unsubscribe is reachable only when the same value is true
+						var gu []Guard
+						for _, i2 := range ifs(f) {
+							c2, neg2 := i2.Cond, false
+							if un, isU := c2.(*ssa.UnOp); isU && un.Op == token.NOT {
+								c2, neg2 = un.X, true
+							}
+							if c2 != c1 {
+								continue
+							}
+							g := Guard{If: i2, Survive: 0}
+							if neg2 {
+								g.Survive = 1
+							}
+							gu = append(gu, g)
+						}
+						if mustPass(f, u, gu) {
+							ok = true
+						}
+					}
+					// P2: unsubscribe inside the critical section; the delete follows before the lock is released / the function returns
+					if held[u.(ssa.Instruction)]["filtersMu"] == 'W' {
+						delE := map[edge]bool{}
+						for _, p := range d.Block().Preds {
+							delE[edge{p.Index, d.Block().Index}] = true
+						}
+						escapes := false
+						if d.Block() != u.Block() || instrIndex(d.(ssa.Instruction)) < instrIndex(u.(ssa.Instruction)) {
+							for b := range reachable(f, u.Block(), delE) {
+								if b == u.Block() {
+									continue
+								}
+								for _, in := range b.Instrs {
+									if c, isC := in.(*ssa.Call); isC {
+										if fld, op := mutexOp(c); fld == "filtersMu" && op == "Unlock" {
+											escapes = true
+										}
+									}
+									if _, isRet := in.(*ssa.Return); isRet {
+										escapes = true
+									}
+								}
+							}
+						}
+						if !escapes {
+							ok = true
+						}
+					}
+				}
+				r.Check(ok, "uninstall once › "+fnKey(f), e.Pos(u.Pos()), "registry entry deleted under filtersMu in the look-up's critical section", "a subscription found in api.filters is unsubscribed without the entry being removed in the same critical section: two uninstall requests for one filter both reach the event loop, which closes the subscription's error channel twice (panic: close of closed channel, node exits)")
+			}
+		}
+		if n == 0 {
+			r.Bad("uninstall sites", "", "no Unsubscribe of a registry subscription found (anchors moved?)")
+		}
+	})
+
 	r.Rule("R7", "MUST-PASS", "the indexer service goroutine has no panic recovery: in KVIndexer.IndexBlock the panicking accessors of the embedded Ethereum payload (MsgEthereumTx.AsTransaction / GetFrom / GetSigners …) run only for transactions whose result passed the dropped-before-ante test and whose events parsed (i.e. the payload was validated by the ante handler)", 1, func() {
 		ib := e.Fn(pkgIndexer, "KVIndexer.IndexBlock")
 		gDrop := boolCallGuards(ib, false, func(c *ssa.Call) bool {
